@@ -1,4 +1,5 @@
 import PolyVerif.Lemmas.Thermo
+import PolyVerif.Props.C11
 /-
 C19 — melting temperatures follow the nearest-neighbour formula monotonically.
 
@@ -148,6 +149,33 @@ theorem symmetry_iff_selfcomp {s : Str} (hs : Acgt s) (hne : s ≠ []) (c na mg 
   rw [← hl, hS]
   simp only [exactF, NN.symmetryFactor]
   cases NN.selfComplementary b <;> norm_num [NN.cond, NN.symmetry]
+
+theorem upper_acgt_both : ∀ c ∈ acgtLetters, c.toUpper ∈ C11.acgtBoth := by decide
+
+/-- **odd_length_no_symmetry** — an oligo of odd length over A/C/G/T is never self-complementary (its
+middle base would have to pair with itself, Props/C11 `odd_not_palindromic`), so `SantaLucia` gives it
+the factor 4 and no symmetry entropy, whatever its flanks. -/
+theorem odd_length_no_symmetry {s : Str} (hs : Acgt s) (hodd : s.length % 2 = 1) (c na mg : ℝ) :
+    ∃ k, santaLuciaCore realNum s na mg = .ok k ∧ k.symmetryFactor = 4 := by
+  have hne : s ≠ [] := by intro h; rw [h] at hodd; simp at hodd
+  obtain ⟨b, t, h, S, k, -, -, hk, -, -, hself, -, h4, -, -⟩ := symmetry_iff_selfcomp hs hne c na mg
+  refine ⟨k, hk, h4.2 ?_⟩
+  have hu : ∀ x ∈ upper s, x ∈ C11.acgtBoth := by
+    intro x hx
+    simp only [upper, List.mem_map] at hx
+    obtain ⟨y, hy, rfl⟩ := hx
+    exact upper_acgt_both y (hs y hy)
+  have hl : (upper s).length % 2 = 1 := by simpa [upper] using hodd
+  have hp := C11.odd_not_palindromic hu hl
+  cases hb : NN.selfComplementary b with
+  | false => rfl
+  | true =>
+    have := hself.2 hb
+    simp only [isPalindromic] at hp
+    rw [hp] at this
+    exact absurd this (by simp)
+
+example : Acgt "GCAGC".toList ∧ "GCAGC".toList.length % 2 = 1 := by decide
 
 /-! ## independence of letter case and of concentrations (any number type, hence also binary64) -/
 
